@@ -4,6 +4,7 @@ import (
 	"bytes"
 	"fmt"
 	"reflect"
+	"sync"
 	"unsafe"
 
 	nas "github.com/free5gc/nas"
@@ -292,6 +293,56 @@ func c05Encode(c *core.Ctx, k *core.Case) {
 	c.Eval(n)
 }
 
+// oracle "reuse": I=[seed, n] — a sequence of PDUs of both families decoded into ONE
+// nas.Message value; after every successful decode exactly one body is populated,
+// the one the type octet names, and the message equals a fresh decode.
+func c05Reuse(c *core.Ctx, k *core.Case) {
+	sp := mustSpec(c)
+	if sp == nil {
+		return
+	}
+	r := prng.New(uint64(k.I[0]))
+	ds := dispatchable(sp)
+	m := nas.NewMessage()
+	var seq []string
+	for i := 0; i < int(k.I[1]); i++ {
+		def := ds[r.Intn(len(ds))]
+		b := refcodec.RandomPlan(def, r, r.Intn(6), r.Intn(5)).Bytes()
+		seq = append(seq, def.Name)
+		in := cloneB(b)
+		var err error
+		switch ep := r.Intn(2); {
+		case ep == 0:
+			err = m.PlainNasDecode(&in)
+		case def.Family == "GSM":
+			err = m.GsmMessageDecode(&in)
+		default:
+			err = m.GmmMessageDecode(&in)
+		}
+		c.Eval(1)
+		if err != nil {
+			c.Fail(k, "valid-message-rejected:"+def.Name, fmt.Sprintf("decode %d of the sequence %v into a reused Message failed: %v", i, seq, err))
+			return
+		}
+		names, _, _ := bodyPointers(m)
+		if len(names) != 1 || names[0] != def.Name {
+			c.Fail(k, "reused-message-keeps-stale-body", fmt.Sprintf("after decoding %v into one Message value the populated bodies are %v (5GMM part present %v, 5GSM part present %v); exactly [%s] is expected", seq, names, m.GmmMessage != nil, m.GsmMessage != nil, def.Name))
+			return
+		}
+		fresh := nas.NewMessage()
+		in2 := cloneB(b)
+		if err := fresh.PlainNasDecode(&in2); err != nil || !reflect.DeepEqual(fresh, m) {
+			c.Fail(k, "reused-message-differs-from-fresh", fmt.Sprintf("after the sequence %v the reused Message differs from a fresh decode of the last PDU", seq))
+			return
+		}
+		if out, err := m.PlainNasEncode(); err != nil || !bytes.Equal(out, refcodec.Encode(def, refcodec.Decode(def, b).Fields)) {
+			c.Fail(k, "reused-message-encodes-wrong-body", fmt.Sprintf("after the sequence %v PlainNasEncode gives %s (err %v)", seq, hx(out), err))
+			return
+		}
+	}
+	c.Count("reuse_sequences", 1)
+}
+
 func init() {
 	p := &core.Property{
 		ID:   "C05",
@@ -301,7 +352,7 @@ func init() {
 			"a header naming a type whose body pointer is nil is a caller error outside the statement (it dereferences nil today); not exercised",
 			"the family decoders route on the type octet only; the first octet is judged through PlainNasDecode",
 		},
-		Oracles: map[string]func(*core.Ctx, *core.Case){"grid": c05Grid, "one": c05One, "short": c05Short, "encode": c05Encode},
+		Oracles: map[string]func(*core.Ctx, *core.Case){"grid": c05Grid, "one": c05One, "short": c05Short, "encode": c05Encode, "reuse": c05Reuse},
 		Exhaustive: func(tier string) (bool, string) {
 			return true, "all 65 536 (first octet, type) pairs at both header offsets; bodies sampled"
 		},
@@ -326,6 +377,9 @@ func init() {
 		if cnt["short_inputs"] == 0 {
 			f = append(f, "short inputs not run")
 		}
+		if cnt["reuse_sequences"] == 0 {
+			f = append(f, "no reused-Message sequence completed")
+		}
 		return f
 	}
 	p.Units = func(tier string) []core.Unit {
@@ -343,6 +397,15 @@ func init() {
 					c.NonTrivial(core.HashU64(0, uint64(b0*256*4+i)))
 				}
 				c.Sample(map[string]interface{}{"oracle": "grid", "first_octets": []int{b0, b0 + 3}, "types": "0..255", "offsets": []int{2, 3}})
+			}})
+		}
+		for u := 0; u < 4; u++ {
+			us = append(us, core.Unit{Name: fmt.Sprintf("reuse-%d", u), Weight: 10, Run: func(c *core.Ctx) {
+				for i := 0; i < c.Pick(150, 4000); i++ {
+					k := &core.Case{Oracle: "reuse", Target: "nas.Message", I: []int64{int64(c.R.Uint64() >> 1), int64(c.R.Range(2, 8))}}
+					c.Do(k)
+					c.NonTrivial(k.Hash())
+				}
 			}})
 		}
 		us = append(us, core.Unit{Name: "short", Weight: 5, Run: func(c *core.Ctx) {
@@ -520,6 +583,15 @@ func c10Encode(c *core.Ctx, k *core.Case) {
 		if m, err := wrapMsg(def, obj, k.B[0][:def.HeaderLen()]); err == nil {
 			if res, err := m.PlainNasEncode(); err == nil {
 				snapRes := cloneB(res)
+				// a later encode of another message must not change this result
+				if prev, ok := c.Scratch["c10prev"].([]byte); ok {
+					if ps, _ := c.Scratch["c10prevSnap"].([]byte); !bytes.Equal(prev, ps) {
+						c.Fail(k, "earlier-result-changed:PlainNasEncode", fmt.Sprintf("the bytes returned by an earlier PlainNasEncode changed after this encode: %s -> %s", hx(ps), hx(prev)))
+					}
+				}
+				if r2, err := m.PlainNasEncode(); err == nil {
+					c.Scratch["c10prev"], c.Scratch["c10prevSnap"] = r2, cloneB(r2)
+				}
 				flip := func() {
 					walkBytes(reflect.ValueOf(obj), func(v reflect.Value) {
 						b := v.Bytes()
@@ -554,12 +626,67 @@ func c10Encode(c *core.Ctx, k *core.Case) {
 	}
 }
 
+// oracle "decode-concurrent": S=[msg] I=[seed, goroutines, repetitions] — "deterministic
+// function of its arguments" probed under concurrency: G goroutines each decode
+// their OWN input of the same message type over and over and compare with the
+// result of a sequential decode. A decoder that parks intermediate data in
+// package-level scratch memory returns another goroutine's octets now and then.
+// (Sampled schedules; the race detector is C19's instrument, not used here.)
+func c10DecodeConcurrent(c *core.Ctx, k *core.Case) {
+	sp := mustSpec(c)
+	if sp == nil {
+		return
+	}
+	def := sp.Msg(k.S[0])
+	r := prng.New(uint64(k.I[0]))
+	G, reps := int(k.I[1]), int(k.I[2])
+	inputs := make([][]byte, G)
+	want := make([]interface{}, G)
+	for g := range inputs {
+		inputs[g] = refcodec.RandomPlan(def, r, 1+g%5, 3).Bytes()
+		obj := newMsgObj(def.Name)
+		in := cloneB(inputs[g])
+		if err := msgDecoder(obj, def.Name)(&in); err != nil {
+			c.Inconclusive("harness: a well-formed plan does not decode: " + err.Error())
+			return
+		}
+		want[g] = obj
+	}
+	bad := make([]int, G)
+	var wg sync.WaitGroup
+	start := make(chan struct{})
+	for g := 0; g < G; g++ {
+		wg.Add(1)
+		go func(g int) {
+			defer wg.Done()
+			<-start
+			for i := 0; i < reps; i++ {
+				obj := newMsgObj(def.Name)
+				in := cloneB(inputs[g])
+				if err := msgDecoder(obj, def.Name)(&in); err != nil || !reflect.DeepEqual(obj, want[g]) {
+					bad[g]++
+				}
+			}
+		}(g)
+	}
+	close(start)
+	wg.Wait()
+	c.Eval(int64(G * reps))
+	for g, n := range bad {
+		if n > 0 {
+			c.Fail(k, "concurrent-decode-differs:"+def.Name, fmt.Sprintf("goroutine %d of %d: %d of %d concurrent decodes of its own %s input differ from the sequential result", g, G, n, reps, def.Name))
+			return
+		}
+	}
+	c.Cover("concurrent", def.Name)
+}
+
 func init() {
 	p := &core.Property{
 		ID:   "C10",
 		Rule: "decode: accepted and rejected inputs (random plans in nine presence patterns, their mutations, repository samples) through the three entry points with the input placed in a slice with guarded spare capacity: input octets, slice header and spare capacity unchanged; no []byte reachable from the message lies inside the input's backing array (address ranges via reflection); flipping every input octet leaves the message deep-equal to its snapshot and vice versa; two runs agree. encode: well-formed messages into buffers pre-filled with 0..64 octets and 0..64 octets of spare capacity: message deep-equal to its snapshot, prefix unchanged, appended bytes equal an encode into an empty buffer, no aliasing between message and output. Non-trivial = accepted input with at least one buffer-backed element, or encode with a non-empty prefill; distinct by bytes.",
 		Assumptions: []string{"address-range comparison uses reflect.Value.Pointer / unsafe on live slices in one goroutine"},
-		Oracles:     map[string]func(*core.Ctx, *core.Case){"decode-pure": c10Decode, "encode-pure": c10Encode},
+		Oracles:     map[string]func(*core.Ctx, *core.Case){"decode-pure": c10Decode, "encode-pure": c10Encode, "decode-concurrent": c10DecodeConcurrent},
 	}
 	p.Floors = func(tier string, cov map[string]map[string]int64, cnt map[string]int64) []string {
 		var f []string
@@ -577,6 +704,9 @@ func init() {
 			if cov["encode"][d.Name] == 0 {
 				f = append(f, "no encode purity case for "+d.Name)
 			}
+			if cov["concurrent"][d.Name] == 0 {
+				f = append(f, "no concurrent decode probe for "+d.Name)
+			}
 		}
 		return f
 	}
@@ -589,6 +719,11 @@ func init() {
 		var us []core.Unit
 		for _, def := range sp.Messages {
 			def := def
+			us = append(us, core.Unit{Name: "concurrent-" + def.Name, Weight: 15, Run: func(c *core.Ctx) {
+				for i := 0; i < c.Pick(2, 12); i++ {
+					c.Do(&core.Case{Oracle: "decode-concurrent", Target: "nasMessage." + def.Name, S: []string{def.Name}, I: []int64{int64(c.R.Uint64() >> 1), 8, int64(c.Pick(400, 1500))}})
+				}
+			}})
 			us = append(us, core.Unit{Name: "msg-" + def.Name, Weight: 30, Run: func(c *core.Ctx) {
 				other := refcodec.RandomPlan(msgs[c.R.Intn(len(msgs))], c.R, 1, 3).Bytes()
 				for i := 0; i < c.Pick(700, 15000); i++ {
